@@ -1,6 +1,7 @@
 package main
 
 import (
+	"go/token"
 	"fmt"
 	"os"
 	"go/types"
@@ -41,8 +42,19 @@ func (x *Exec) resolveCallee(fr *Frame, st *State, c *ssa.CallCommon) (key strin
 func (x *Exec) call(fr *Frame, st *State, ci ssa.CallInstruction) []string {
 	res := x.callInner(fr, st, ci)
 	if fr.depth == 0 && fr.contract != nil && len(fr.contract.OnCall) > 0 {
-		if effs, ok := fr.contract.OnCall[calleeShortName(ci.Common())]; ok {
+		name := calleeShortName(ci.Common())
+		if os.Getenv("GOVC_DEBUG_ONCALL") != "" {
+			fmt.Fprintf(os.Stderr, "on-call candidate %q in %s\n", name, shortFn(fr.fn))
+		}
+		var idxVal ssa.Value
+		if name == "" {
+			name, idxVal = elemCallName(ci.Common())
+		}
+		if effs, ok := fr.contract.OnCall[name]; ok && name != "" {
 			bind := map[string]specVal{}
+			if idxVal != nil {
+				bind["idx"] = specVal{term: x.val(fr, st, idxVal), typ: tInt}
+			}
 			rts := x.resultTypes(ci.Common().Signature())
 			for i, r := range res {
 				if i < len(rts) {
@@ -71,9 +83,45 @@ func calleeShortName(c *ssa.CallCommon) string {
 		return c.Method.Name()
 	}
 	if f := c.StaticCallee(); f != nil {
-		return f.Name()
+		n := f.Name()
+		if i := strings.Index(n, "["); i > 0 {
+			n = n[:i] // instantiation: Acquire[T] -> Acquire
+		}
+		return n
 	}
 	return ""
+}
+
+// elemCallName names a call through an element of a slice variable, `fs[i]()`: "elem:fs" and the
+// index value. ("" when the call has another shape.)
+func elemCallName(c *ssa.CallCommon) (string, ssa.Value) {
+	if c.IsInvoke() {
+		return "", nil
+	}
+	ld, ok := c.Value.(*ssa.UnOp)
+	if !ok || ld.Op != token.MUL {
+		return "", nil
+	}
+	ia, ok := ld.X.(*ssa.IndexAddr)
+	if !ok {
+		return "", nil
+	}
+	switch b := ia.X.(type) {
+	case *ssa.UnOp:
+		if b.Op == token.MUL {
+			switch r := b.X.(type) {
+			case *ssa.Alloc:
+				if r.Comment != "" {
+					return "elem:" + r.Comment, ia.Index
+				}
+			case *ssa.FreeVar:
+				return "elem:" + r.Name(), ia.Index
+			}
+		}
+	case *ssa.Parameter:
+		return "elem:" + b.Name(), ia.Index
+	}
+	return "", nil
 }
 
 func (x *Exec) callInner(fr *Frame, st *State, ci ssa.CallInstruction) []string {
@@ -106,6 +154,12 @@ func (x *Exec) callInner(fr *Frame, st *State, ci ssa.CallInstruction) []string 
 	}
 	// call-site contracts (checked in the caller, whoever the callee is)
 	x.checkCallsites(fr, st, ci, key, fn, args, argTypes)
+	// a call through an element of a slice variable can be named "elem:<name>" (index: idx)
+	if en, iv := elemCallName(c); en != "" {
+		x.elemIdx = x.val(fr, st, iv)
+		x.checkCallsites(fr, st, ci, en, nil, args, argTypes)
+		x.elemIdx = ""
+	}
 	// a call through a local function variable can be named "var:<name>" in a call-site contract
 	if !c.IsInvoke() {
 		if u, ok := c.Value.(*ssa.UnOp); ok {
@@ -759,6 +813,9 @@ func (x *Exec) checkCallsites(fr *Frame, st *State, ci ssa.CallInstruction, key 
 			env.names["recv"] = specVal{term: args[0], typ: argTypes[0]}
 		}
 		env.callerFrame = fr
+		if x.elemIdx != "" {
+			env.names["idx"] = specVal{term: x.elemIdx, typ: tInt}
+		}
 		if cc.Where != nil {
 			w := x.evalBool(env, cc.Where.Expr)
 			if w == "false" {
